@@ -172,11 +172,11 @@ open Rare.Pipeline Rare.C01 Rare.TraceOrder
 inductive EvPath (cfg : Cfg) (wg : List Nat) : PSt → List Ev → List Label → PSt → Prop
   | nil (ps) : EvPath cfg wg ps [] [] ps
   | cons {ps ps1 ps' e es ls ls'} : evLabels cfg wg ps e = some ls →
-      LPath harnessCls cfg.R cfg.B cfg.K ps.lts ls ps1.lts →
+      LPath cfg.cls cfg.R cfg.B cfg.K ps.lts ls ps1.lts →
       EvPath cfg wg ps1 es ls' ps' → EvPath cfg wg ps (e :: es) (ls ++ ls') ps'
 
 theorem pstep_sound {cfg : Cfg} {wg : List Nat} {ps ps' : PSt} {e : Ev} (h : pstep cfg wg ps e = some ps') :
-    ∃ ls, evLabels cfg wg ps e = some ls ∧ LPath harnessCls cfg.R cfg.B cfg.K ps.lts ls ps'.lts := by
+    ∃ ls, evLabels cfg wg ps e = some ls ∧ LPath cfg.cls cfg.R cfg.B cfg.K ps.lts ls ps'.lts := by
   unfold pstep at h
   split at h
   · simp at h
@@ -204,7 +204,7 @@ theorem replay_evpath {cfg : Cfg} {wg : List Nat} : ∀ (evs : List Ev) (ps ps' 
       exact ⟨ls ++ ls', .cons hl hp hr⟩
 
 theorem EvPath.lpath {cfg : Cfg} {wg : List Nat} {ps ps' : PSt} {evs : List Ev} {labels : List Label}
-    (h : EvPath cfg wg ps evs labels ps') : LPath harnessCls cfg.R cfg.B cfg.K ps.lts labels ps'.lts := by
+    (h : EvPath cfg wg ps evs labels ps') : LPath cfg.cls cfg.R cfg.B cfg.K ps.lts labels ps'.lts := by
   induction h with
   | nil ps => exact .nil _
   | cons _ hp _ ih => exact hp.append ih
